@@ -73,6 +73,9 @@ def shapes(T):
         ("basic_wrong", "Basic " + T[::-1]),
         ("two_words_wrong", "Bearer " + T[:-1] + " " + T[1:]),
         ("other_servers_token", "Bearer 0therTok"),
+        # header values are latin-1: credentials with characters outside ASCII are credentials like any other
+        ("non_ascii", "Bearer \u00fc"),
+        ("token_plus_non_ascii", "Bearer " + T + "\u00e9"),
     ]
 
 
